@@ -201,6 +201,10 @@ def solve_ops(job):
         elif kind == "set_values":
             solver.values = jnp.array(np.array([frac_to_float(x) for x in op[1]], dtype=np.float64))
             obs.append({"ok": True})
+        elif kind == "set_gamma":
+            # public attribute, assigned exactly the way the constructor builds it (so cached executables are reused)
+            solver.gamma = jnp.array(float(op[1]))
+            obs.append({"ok": True})
         elif kind == "set_policy":
             A = np.asarray(problem.action_space)
             solver.policy = jnp.array(np.array([A[a] for a in op[1]]))
@@ -514,6 +518,8 @@ def c20_construct(job):
         return dict(out, raised=type(e).__name__, message=str(e)[:300], stage="construct")
     out["constructed"] = True
     out["conv_threshold"] = str(float(solver.conv_threshold))
+    out["gamma_used"] = float(solver.gamma).hex()
+    out["gamma_dtype"] = str(np.asarray(solver.gamma).dtype)
     if job.get("solve"):
         try:
             st = solver.solve(max_iterations=int(job["solve"]))
